@@ -22,7 +22,8 @@ META = {
                    'schedule every evaluation must equal its isolated outcome, including the trace text of the failing one. The '
                    'evaluations deliberately share module state (same path strings, cold Path cache and registry memo).',
     'bounds': {
-        'quick': {'re-entrant nesting depth': 3, 'call pool': 8, 'threads': 2, 'yield points per evaluation': '<= 4', 'schedule vector length': 8},
+        'quick': {'re-entrant nesting depth': 3, 'call pool': 11, 'threads': 2, 'yield points per evaluation': '<= 4', 'schedule vector length': 8,
+                  'shared spec objects': '5 kinds (Spec.glom scope=, Spec with own scope, Vars(), Vars(base), Vars(**defaults)) x {A then B, B then A, B nested in A, B in another thread while A is parked}'},
         'thorough': {'threads': 3, 'schedule vector length': 10},
     },
     'stubs': ['S6: worker threads run untraced (only the schedule is symbolic; data inside workers is concrete)', 'S4 state reset'],
@@ -250,6 +251,90 @@ class YieldingF:
         return '<yielding-callable>'
 
 
+# ---- ONE spec object shared by two evaluations: nothing one evaluation binds or accumulates is seen by the other -----
+class Gate:
+    """user callable inside the shared spec; when armed it runs the OTHER evaluation (nested) or parks the thread"""
+    def __init__(self):
+        self.fn = None
+
+    def __call__(self, t):
+        fn, self.fn = self.fn, None
+        if fn is not None:
+            fn()
+        return t
+
+    def __repr__(self):
+        return '<gate>'
+
+
+N_SHARED = 5
+
+
+def _shared(kind, gate, x, y):
+    """(call A, call B) as thunks over one shared spec object; B binds / accumulates nothing itself"""
+    from glom import Vars
+    if kind == 0:       # per-call scope= of Spec.glom
+        sp = Spec((gate, Coalesce(S['tok'], default='UNBOUND')))
+        return (lambda: sp.glom({'t': 1}, scope={'tok': x})), (lambda: sp.glom({'t': 2}))
+    if kind == 1:       # a Spec with its own scope plus a per-call scope
+        sp = Spec((gate, {'base': S['base'], 'tok': Coalesce(S['tok'], default='UNBOUND')}), scope={'base': y})
+        return (lambda: sp.glom({'t': 1}, scope={'tok': x})), (lambda: sp.glom({'t': 2}))
+    if kind == 2:       # Vars() namespace filled by A.<name>
+        sp = (S(seen=Vars()), [(gate, A.seen.last)], S.seen, dict)
+        return (lambda: glom([x, y], sp)), (lambda: glom([], sp))
+    if kind == 3:       # Vars with a base mapping
+        sp = (S(c=Vars({'n': 0})), [(gate, A.c.n)], S.c.n)
+        return (lambda: glom([x, y], sp)), (lambda: glom([], sp))
+    # Vars with keyword defaults
+    sp = (S(c=Vars(n=0, m=y)), [(gate, A.c.n)], S.c, dict)
+    return (lambda: glom([x], sp)), (lambda: glom([], sp))
+
+
+def shared_spec(kind: int, how: int, x: int, y: int) -> bool:
+    """how: 0 A then B, 1 B nested in A (from the callable inside the shared spec), 2 B in another thread while A is parked
+    inside the callable, 3 B then A"""
+    start()
+    kind, how = concretize(kind, 0, N_SHARED - 1), concretize(how, 0, 3)
+    if kind is OUT or how is OUT:
+        return True
+    # alone: each call on a FRESH spec object
+    vkit.stubs.reset_glom_state()
+    a_alone = outcome_of(_shared(kind, Gate(), x, y)[0])
+    vkit.stubs.reset_glom_state()
+    b_alone = outcome_of(_shared(kind, Gate(), x, y)[1])
+    vkit.stubs.reset_glom_state()
+    gate = Gate()
+    call_a, call_b = _shared(kind, gate, x, y)
+    res = {}
+    if how == 0:
+        res['a'] = outcome_of(call_a)
+        res['b'] = outcome_of(call_b)
+    elif how == 3:
+        res['b'] = outcome_of(call_b)
+        res['a'] = outcome_of(call_a)
+    elif how == 1:
+        gate.fn = lambda: res.__setitem__('b', outcome_of(call_b))
+        res['a'] = outcome_of(call_a)
+    else:
+        st_holder = {}
+        gate.fn = lambda: st_holder['st'].yield_()
+        st = Stepper(lambda st_: call_a())
+        st_holder['st'] = st
+        st.step()                                  # A runs up to the gate and parks there (or finishes)
+        res['b'] = outcome_of(call_b)              # B runs completely in the main thread meanwhile
+        while not st.done:
+            st.step()
+        res['a'] = st.result
+    reach('shared_spec')
+    if 'b' not in res:
+        return fail(why='the other evaluation did not run', how=how, kind=kind)
+    if not same(res['b'], b_alone):
+        return fail(why='an evaluation observed what another evaluation of the same spec object bound or accumulated', got=res['b'], alone=b_alone, kind=kind, how=how)
+    if not same(res['a'], a_alone):
+        return fail(why='evaluation A differs from A run alone', got=res['a'], alone=a_alone, kind=kind, how=how)
+    return True
+
+
 def thread_calls():
     """evaluations that share module state: same path strings, first-time registry lookups, a wildcard path, a failure"""
     def call_a(st):
@@ -349,6 +434,9 @@ def obligations(tier):
             obs.append(Ob(reentrant, fixed={'c0': c0, 'c1': c1, 'depth': 3}, pre='0 <= c2 < %d' % NCALL, name='reentrant3_%d_%d' % (c0, c1),
                           timeout=300, path_timeout=60))
     obs.append(Ob(recursive, pre='0 <= n <= 3', name='recursive'))
+    for kind in range(N_SHARED):
+        obs.append(Ob(shared_spec, fixed={'kind': kind}, pre='0 <= how <= 3', name='shared_spec_%d' % kind, timeout=200))
+    obs.append(Ob(shared_spec, fixed={'kind': 2}, pre='0 <= how <= 3', twin='shared_spec', name='shared_spec_2'))
     obs.append(Ob(recursive_args, pre='1 <= n <= 3', name='recursive_args'))
     obs.append(Ob(caught_inner, fixed={'c1': 4}, name='caught_inner', timeout=200))
     sv = ' and '.join('0 <= s%d <= 1' % i for i in range(8))
